@@ -15,9 +15,11 @@
    these combine into C03_progress: for programs whose handlers, filters and hooks do not call Wait or Shutdown, some
    goroutine can always step in every reachable state whose lock waits are acyclic (the documented exception is a
    cycle) and in which no goroutine has died of an unrecovered panic; the exception itself is exhibited
-   (C03_self_delivery_exception).  NOT proved: a program-level characterisation of the acyclicity condition (which
-   Sequential handlers can be re-entered by their own publishes); it is checked per observed run by the deadlock
-   oracle of the suites. *)
+   (C03_self_delivery_exception).  The waits of Async+Sequential deliveries for their turn never close a cycle
+   (C03_progress_mutex_waits_only), and for programs whose Sequential handlers do not publish the acyclicity hypothesis
+   is discharged altogether (C03_progress_when_sequential_handlers_do_not_publish, C03_leaf_programs_never_deadlock).
+   NOT proved: acyclicity for programs whose Sequential handlers publish (which of them can be re-entered by their own
+   publishes); there it is checked per observed run by the deadlock oracle of the suites. *)
 From Coq Require Import List Arith Bool.
 Import ListNotations.
 From Ebu Require Import Bus.BusModel Bus.BusInv Bus.BusLeaf.
